@@ -81,7 +81,7 @@ var deriveOps = []op{
 	// ---------------------------------------------------------------- SM9 signature master key and what hangs off it
 	{"sm9 derive: SignMaster.GenerateUserKey -> SignASN1 with the new key -> SignMaster.PublicKey().Verify", "sm9sign", func(o *objset, m *material, s uint64) []byte {
 		uid := derivedUID(s)
-		uk, err := o.signMaster.GenerateUserKey(uid, hid)
+		uk, err := o.sm9of(s).signMaster.GenerateUserKey(uid, hid)
 		if err != nil {
 			return res(nil, err)
 		}
@@ -89,7 +89,7 @@ var deriveOps = []op{
 		if err != nil {
 			return res(nil, err)
 		}
-		if !o.signMaster.PublicKey().Verify(uid, hid, m.hash, sig) {
+		if !o.sm9of(s).signMaster.PublicKey().Verify(uid, hid, m.hash, sig) {
 			return errf("signature of a freshly derived user key does not verify under the master public key")
 		}
 		return cat(uk.Bytes(), sig)
@@ -97,11 +97,11 @@ var deriveOps = []op{
 	{"sm9 derive: two user keys from the shared master, used alternately, verified crosswise", "sm9sign", func(o *objset, m *material, s uint64) []byte {
 		u1, u2 := derivedUID(s), derivedUID(s>>20)
 		u2 = append(u2, 'b')
-		k1, err := o.signMaster.GenerateUserKey(u1, hid)
+		k1, err := o.sm9of(s).signMaster.GenerateUserKey(u1, hid)
 		if err != nil {
 			return res(nil, err)
 		}
-		k2, err := o.signMaster.GenerateUserKey(u2, hid)
+		k2, err := o.sm9of(s).signMaster.GenerateUserKey(u2, hid)
 		if err != nil {
 			return res(nil, err)
 		}
@@ -120,24 +120,24 @@ var deriveOps = []op{
 		return cat(s1, s2)
 	}},
 	{"sm9 accessor: SignMaster.PublicKey() -> VerifyASN1", "sm9sign", func(o *objset, m *material, s uint64) []byte {
-		return bl(sm9.VerifyASN1(o.signMaster.PublicKey(), m.uid, hid, m.hash, m.sm9Sig))
+		return bl(sm9.VerifyASN1(o.sm9of(s).signMaster.PublicKey(), m.uid, hid, m.hash, m.sm9Sig))
 	}},
 	{"sm9 accessor: SignMaster.Public() -> Verify", "sm9sign", func(o *objset, m *material, s uint64) []byte {
-		pub, ok := o.signMaster.Public().(*sm9.SignMasterPublicKey)
+		pub, ok := o.sm9of(s).signMaster.Public().(*sm9.SignMasterPublicKey)
 		if !ok {
 			return errf("Public() is not a *SignMasterPublicKey")
 		}
 		return bl(pub.Verify(m.uid, hid, m.hash, m.sm9Sig))
 	}},
 	{"sm9 accessor: SignPrivateKey.MasterPublic() -> VerifyASN1", "sm9sign", func(o *objset, m *material, s uint64) []byte {
-		return bl(sm9.VerifyASN1(o.signUser.MasterPublic(), m.uid, hid, m.hash, m.sm9Sig))
+		return bl(sm9.VerifyASN1(o.sm9of(s).signUser.MasterPublic(), m.uid, hid, m.hash, m.sm9Sig))
 	}},
 	{"sm9: Sign (h,s) with the shared user key -> Verify (h,s) with SignMaster.PublicKey()", "sm9sign", func(o *objset, m *material, s uint64) []byte {
-		h, sb, err := sm9.Sign(script(s, "d-sm9-3"), o.signUser, m.hash)
+		h, sb, err := sm9.Sign(script(s, "d-sm9-3"), o.sm9of(s).signUser, m.hash)
 		if err != nil {
 			return res(nil, err)
 		}
-		if !sm9.Verify(o.signMaster.PublicKey(), m.uid, hid, m.hash, h, sb) {
+		if !sm9.Verify(o.sm9of(s).signMaster.PublicKey(), m.uid, hid, m.hash, h, sb) {
 			return errf("(h,s) of the shared user key does not verify under the master key's public key")
 		}
 		return cat(h.Bytes(), sb)
@@ -146,9 +146,9 @@ var deriveOps = []op{
 		var der []byte
 		var err error
 		if s&1 == 0 {
-			der, err = o.signMaster.PublicKey().MarshalASN1()
+			der, err = o.sm9of(s).signMaster.PublicKey().MarshalASN1()
 		} else {
-			der, err = o.signMaster.PublicKey().MarshalCompressedASN1()
+			der, err = o.sm9of(s).signMaster.PublicKey().MarshalCompressedASN1()
 		}
 		if err != nil {
 			return res(nil, err)
@@ -157,15 +157,15 @@ var deriveOps = []op{
 		if err != nil {
 			return res(nil, err)
 		}
-		return cat(der, bl(sm9.VerifyASN1(pub, m.uid, hid, m.hash, m.sm9Sig)), bl(pub.Equal(o.signPub)))
+		return cat(der, bl(sm9.VerifyASN1(pub, m.uid, hid, m.hash, m.sm9Sig)), bl(pub.Equal(o.sm9of(s).signPub)))
 	}},
 	{"sm9 re-encode: shared user key marshalled (plain/compressed) + MasterPublic() -> unmarshalled -> SignASN1", "sm9sign", func(o *objset, m *material, s uint64) []byte {
 		var der []byte
 		var err error
 		if s&1 == 0 {
-			der, err = o.signUser.MarshalASN1()
+			der, err = o.sm9of(s).signUser.MarshalASN1()
 		} else {
-			der, err = o.signUser.MarshalCompressedASN1()
+			der, err = o.sm9of(s).signUser.MarshalCompressedASN1()
 		}
 		if err != nil {
 			return res(nil, err)
@@ -174,7 +174,7 @@ var deriveOps = []op{
 		if err != nil {
 			return res(nil, err)
 		}
-		uk, err := sm9.UnmarshalSignPrivateKeyASN1(userKeyDER(bare.Bytes(), o.signUser.MasterPublic().Bytes()))
+		uk, err := sm9.UnmarshalSignPrivateKeyASN1(userKeyDER(bare.Bytes(), o.sm9of(s).signUser.MasterPublic().Bytes()))
 		if err != nil {
 			return res(nil, err)
 		}
@@ -182,17 +182,17 @@ var deriveOps = []op{
 		if err != nil {
 			return res(nil, err)
 		}
-		return cat(sig, bl(uk.Equal(o.signUser)), bl(sm9.VerifyASN1(o.signPub, m.uid, hid, m.hash, sig)))
+		return cat(sig, bl(uk.Equal(o.sm9of(s).signUser)), bl(sm9.VerifyASN1(o.sm9of(s).signPub, m.uid, hid, m.hash, sig)))
 	}},
 
 	// ---------------------------------------------------------------- SM9 encryption master key
 	{"sm9 derive: EncMaster.GenerateUserKey -> UnwrapKey of a key wrapped with EncMaster.PublicKey()", "sm9enc", func(o *objset, m *material, s uint64) []byte {
 		uid := derivedUID(s)
-		uk, err := o.encMaster.GenerateUserKey(uid, hidEnc)
+		uk, err := o.sm9of(s).encMaster.GenerateUserKey(uid, hidEnc)
 		if err != nil {
 			return res(nil, err)
 		}
-		k, c, err := o.encMaster.PublicKey().WrapKey(script(s, "d-sm9-5"), uid, hidEnc, 24)
+		k, c, err := o.sm9of(s).encMaster.PublicKey().WrapKey(script(s, "d-sm9-5"), uid, hidEnc, 24)
 		if err != nil {
 			return res(nil, err)
 		}
@@ -208,7 +208,7 @@ var deriveOps = []op{
 	{"sm9 derive: EncMaster.GenerateUserKey -> MasterPublic() of the new key -> Encrypt -> Decrypt with the new key", "sm9enc", func(o *objset, m *material, s uint64) []byte {
 		uid := derivedUID(s)
 		opts := sm9EncOpts[int(s>>8)%len(sm9EncOpts)]
-		uk, err := o.encMaster.GenerateUserKey(uid, hidEnc)
+		uk, err := o.sm9of(s).encMaster.GenerateUserKey(uid, hidEnc)
 		if err != nil {
 			return res(nil, err)
 		}
@@ -227,11 +227,11 @@ var deriveOps = []op{
 	}},
 	{"sm9 accessor: EncMaster.PublicKey() -> Encrypt (option objects of the package) -> Decrypt with the shared user key", "sm9enc", func(o *objset, m *material, s uint64) []byte {
 		opts := sm9EncOpts[int(s>>8)%len(sm9EncOpts)]
-		ct, err := sm9.Encrypt(script(s, "d-sm9-7"), o.encMaster.PublicKey(), m.uid, hidEnc, m.msg, opts)
+		ct, err := sm9.Encrypt(script(s, "d-sm9-7"), o.sm9of(s).encMaster.PublicKey(), m.uid, hidEnc, m.msg, opts)
 		if err != nil {
 			return res(nil, err)
 		}
-		pt, err := sm9.Decrypt(o.encUser, m.uid, ct, opts)
+		pt, err := sm9.Decrypt(o.sm9of(s).encUser, m.uid, ct, opts)
 		if err != nil {
 			return errf("shared user key cannot decrypt: %v", err)
 		}
@@ -241,7 +241,7 @@ var deriveOps = []op{
 		return ct
 	}},
 	{"sm9 accessor: EncMaster.Public() -> WrapKeyASN1 -> key package -> UnwrapKey with the shared user key", "sm9enc", func(o *objset, m *material, s uint64) []byte {
-		pub, ok := o.encMaster.Public().(*sm9.EncryptMasterPublicKey)
+		pub, ok := o.sm9of(s).encMaster.Public().(*sm9.EncryptMasterPublicKey)
 		if !ok {
 			return errf("Public() is not an *EncryptMasterPublicKey")
 		}
@@ -253,7 +253,7 @@ var deriveOps = []op{
 		if err != nil {
 			return res(nil, err)
 		}
-		k2, err := sm9.UnwrapKey(o.encUser, m.uid, c, 16)
+		k2, err := sm9.UnwrapKey(o.sm9of(s).encUser, m.uid, c, 16)
 		if err != nil {
 			return errf("shared user key cannot unwrap: %v", err)
 		}
@@ -263,11 +263,11 @@ var deriveOps = []op{
 		return pkg
 	}},
 	{"sm9 accessor: EncryptPrivateKey.MasterPublic() -> WrapKey -> UnwrapKey", "sm9enc", func(o *objset, m *material, s uint64) []byte {
-		k, c, err := o.encUser.MasterPublic().WrapKey(script(s, "d-sm9-9"), m.uid, hidEnc, 32)
+		k, c, err := o.sm9of(s).encUser.MasterPublic().WrapKey(script(s, "d-sm9-9"), m.uid, hidEnc, 32)
 		if err != nil {
 			return res(nil, err)
 		}
-		k2, err := o.encUser.UnwrapKey(m.uid, c, 32)
+		k2, err := o.sm9of(s).encUser.UnwrapKey(m.uid, c, 32)
 		if err != nil {
 			return errf("shared user key cannot unwrap: %v", err)
 		}
@@ -278,18 +278,18 @@ var deriveOps = []op{
 	}},
 	{"sm9: EncryptASN1 with the shared public key -> EncryptPrivateKey.Decrypt (crypto.Decrypter)", "sm9enc", func(o *objset, m *material, s uint64) []byte {
 		opts := sm9EncOpts[int(s>>8)%len(sm9EncOpts)]
-		ct, err := sm9.EncryptASN1(script(s, "d-sm9-10"), o.encPub, m.uid, hidEnc, m.msg, opts)
+		ct, err := sm9.EncryptASN1(script(s, "d-sm9-10"), o.sm9of(s).encPub, m.uid, hidEnc, m.msg, opts)
 		if err != nil {
 			return res(nil, err)
 		}
 		var pt []byte
 		if s&1 == 0 {
-			pt, err = o.encUser.Decrypt(nil, ct, m.uid)
+			pt, err = o.sm9of(s).encUser.Decrypt(nil, ct, m.uid)
 		} else {
 			var du *sm9.DecrypterOptsWithUID
 			du, err = sm9.NewDecrypterOptsWithUID(opts, m.uid)
 			if err == nil {
-				pt, err = o.encUser.Decrypt(nil, ct, du)
+				pt, err = o.sm9of(s).encUser.Decrypt(nil, ct, du)
 			}
 		}
 		if err != nil {
@@ -304,9 +304,9 @@ var deriveOps = []op{
 		var der []byte
 		var err error
 		if s&1 == 0 {
-			der, err = o.encMaster.PublicKey().MarshalASN1()
+			der, err = o.sm9of(s).encMaster.PublicKey().MarshalASN1()
 		} else {
-			der, err = o.encMaster.PublicKey().MarshalCompressedASN1()
+			der, err = o.sm9of(s).encMaster.PublicKey().MarshalCompressedASN1()
 		}
 		if err != nil {
 			return res(nil, err)
@@ -319,11 +319,11 @@ var deriveOps = []op{
 		if err != nil {
 			return res(nil, err)
 		}
-		k2, err := o.encUser.UnwrapKey(m.uid, c, 16)
+		k2, err := o.sm9of(s).encUser.UnwrapKey(m.uid, c, 16)
 		if err != nil || !bytes.Equal(k, k2) {
 			return errf("shared user key does not unwrap what the re-encoded master public key wrapped (%v)", err)
 		}
-		return cat(der, k, c, bl(pub.Equal(o.encPub)))
+		return cat(der, k, c, bl(pub.Equal(o.sm9of(s).encPub)))
 	}},
 	{"own sm9 encryption master: GenerateUserKey -> WrapKey -> UnwrapKey", "own", func(o *objset, m *material, s uint64) []byte {
 		mk, err := sm9.UnmarshalEncryptMasterPrivateKeyASN1(m.encMasterDER)
